@@ -1015,6 +1015,85 @@ fn cache_chunk(rng: &mut Rng, events: usize, out: &mut dyn Write, progress: &str
     }
 }
 
+// ------------------------------------------------------------------ BitBoard as a set of squares (C20)
+fn bits_chunk(rng: &mut Rng, events: usize, out: &mut dyn Write) {
+    let mut n = 0;
+    let mut structured: Vec<u64> = vec![0, u64::MAX, 0xFF, 0xFF00_0000_0000_0000, 0x0101_0101_0101_0101, 0x8080_8080_8080_8080,
+        0x8040_2010_0804_0201, 0x0102_0408_1020_4080, 0x5555_5555_5555_5555, 0xAAAA_AAAA_AAAA_AAAA, 1, 1 << 63, 0x8000_0000_0000_0001];
+    for i in 0..8 {
+        structured.push(0xFFu64 << (8 * i));
+        structured.push(0x0101_0101_0101_0101u64 << i);
+    }
+    let pick = |rng: &mut Rng, structured: &Vec<u64>| -> u64 {
+        match rng.below(6) {
+            0 => structured[rng.below(structured.len())],
+            1 => rng.next() & rng.next() & rng.next(),
+            2 => rng.next() | rng.next() | rng.next(),
+            3 => 1u64 << rng.below(64),
+            4 => structured[rng.below(structured.len())] ^ (1u64 << rng.below(64)),
+            _ => rng.next(),
+        }
+    };
+    // all 64 single squares exhaustively, first
+    for i in 0..64u8 {
+        let sq = Square::new(i);
+        let b = BitBoard::from_square(sq);
+        let via_set = BitBoard::set(sq.get_rank(), sq.get_file());
+        writeln!(out, "{}", json!({"op": "from_square", "sq": i, "ret": bb_squares(b), "back": b.to_square().to_index(), "set_rf": via_set.to_square().to_index()})).unwrap();
+        n += 1;
+    }
+    while n < events {
+        let x = pick(rng, &structured);
+        let y = pick(rng, &structured);
+        let a = BitBoard::new(x);
+        let b = BitBoard::new(y);
+        let la = bb_squares(a);
+        let lb = bb_squares(b);
+        match rng.below(9) {
+            0 => {
+                let mut f5 = a;
+                f5 &= b;
+                let mut f6 = a;
+                f6 &= &b;
+                writeln!(out, "{}", json!({"op": "and", "a": la, "b": lb, "forms": [bb_squares(a & b), bb_squares(&a & &b), bb_squares(a & &b), bb_squares(&a & b), bb_squares(f5), bb_squares(f6)]})).unwrap();
+            }
+            1 => {
+                let mut f5 = a;
+                f5 |= b;
+                let mut f6 = a;
+                f6 |= &b;
+                writeln!(out, "{}", json!({"op": "or", "a": la, "b": lb, "forms": [bb_squares(a | b), bb_squares(&a | &b), bb_squares(a | &b), bb_squares(&a | b), bb_squares(f5), bb_squares(f6)]})).unwrap();
+            }
+            2 => {
+                let mut f5 = a;
+                f5 ^= b;
+                let mut f6 = a;
+                f6 ^= &b;
+                writeln!(out, "{}", json!({"op": "xor", "a": la, "b": lb, "forms": [bb_squares(a ^ b), bb_squares(&a ^ &b), bb_squares(a ^ &b), bb_squares(&a ^ b), bb_squares(f5), bb_squares(f6)]})).unwrap();
+            }
+            3 => writeln!(out, "{}", json!({"op": "not", "a": la, "forms": [bb_squares(!a), bb_squares(!&a)]})).unwrap(),
+            4 => writeln!(out, "{}", json!({"op": "popcnt", "a": la, "ret": a.popcnt()})).unwrap(),
+            5 => writeln!(out, "{}", json!({"op": "to_square", "a": la, "ret": a.to_square().to_index()})).unwrap(),
+            6 => writeln!(out, "{}", json!({"op": "reverse_colors", "a": la, "ret": bb_squares(a.reverse_colors())})).unwrap(),
+            7 => {
+                let bits: Vec<u8> = (0..64u8).filter(|i| (x >> i) & 1 == 1).collect();
+                writeln!(out, "{}", json!({"op": "new", "bits": bits, "ret": bb_squares(BitBoard::new(x))})).unwrap();
+            }
+            _ => {
+                writeln!(out, "{}", json!({"op": "iter_start", "a": (0..64u8).filter(|i| (x >> i) & 1 == 1).collect::<Vec<u8>>()})).unwrap();
+                n += 1;
+                let mut it = a;
+                while let Some(s) = it.next() {
+                    writeln!(out, "{}", json!({"op": "iter_next", "ret": s.to_index()})).unwrap();
+                    n += 1;
+                }
+                writeln!(out, "{}", json!({"op": "iter_end"})).unwrap();
+            }
+        }
+        n += 1;
+    }
+}
+
 fn main() {
     let args: Vec<String> = std::env::args().collect();
     if args.len() < 2 {
@@ -1062,6 +1141,7 @@ fn main() {
             "board" => board_chunk(&mut rng, events, &mut f),
             "iter" => iter_chunk(&mut rng, events, &mut f),
             "text" => text_chunk(&mut rng, events, &mut f),
+            "bits" => bits_chunk(&mut rng, events, &mut f),
             "cache" => {
                 let progress = format!("{}/{}-{}.progress", outdir, mode, c);
                 cache_chunk(&mut rng, events, &mut f, &progress);
